@@ -58,7 +58,7 @@ KINDS = ['ChainMapDD', 'OneShot', 'OneShotExplode', 'SizedOneShot', 'SizedOneSho
          'SpyList', 'SpyTuple', 'SpyDict', 'SpySet', 'SpyDeque', 'SpySeq', 'SpyMap', 'SpyIterable', 'SpyContainer', 'SpyCollection']
 
 
-def generate(rng, run, tier):
+def _generate(rng, run, tier):
     conf = entry.gen_conf(rng, allow_tower=False)
     kinds = KINDS
     if rng.random() < 0.9:
@@ -67,6 +67,13 @@ def generate(rng, run, tier):
     return {'hint': rng.choice(list(HINTS)), 'item': rng.choice(list(ITEMS)), 'kind': rng.choice(kinds),
             'content': rng.choice(['good', 'good', 'bad', 'mixed', 'empty']), 'n': rng.choice([1, 2, 3, 5]),
             'conf': conf, 'draws': [0, 1, rng.getrandbits(32)]}
+
+
+def generate(rng, run, tier):
+    case = _generate(rng, run, tier)
+    # the calling convention of the decorated callable (drawn last: the rest of the case is as it was without it)
+    case['sig'] = entry.gen_sig(rng)
+    return case
 
 
 def _items(case):
@@ -218,7 +225,7 @@ def execute(case):
     if case['kind'].startswith('Spy'):
         probes['logging_containers'] = 1
     try:
-        prep = entry.Prepared(hint, case['conf'])
+        prep = entry.Prepared(hint, case['conf'], sig=case.get('sig', 'pos'))
     except Exception as e:      # noqa
         return _out(case, probes, ('unexpected_exception', 'preparing %r raised %s: %s' % (hint, type(e).__name__, str(e)[:200]), 'prepare'))
     viol = None
@@ -257,6 +264,8 @@ def _out(case, probes, viol):
 
 
 def shrink(case, violation):
+    if case.get('sig', 'pos') != 'pos':
+        yield dict(case, sig='pos')
     if len(case['draws']) > 1:
         for d in case['draws']:
             yield dict(case, draws=[d])
@@ -276,4 +285,4 @@ SIGNATURES = {'chainmap_over_defaultdict': _sig_chainmap_dd}
 
 
 def describe(case):
-    return {k: case[k] for k in ('hint', 'item', 'kind', 'content', 'n', 'conf', 'draws')}
+    return dict({k: case[k] for k in ('hint', 'item', 'kind', 'content', 'n', 'conf', 'draws')}, sig=case.get('sig', 'pos'))
